@@ -468,9 +468,14 @@ func main() {
 		},
 		"assumptions": meta.Assumptions,
 	}
-	os.MkdirAll(filepath.Join(verifDir, "evidence"), 0o755)
+	evDir := filepath.Join(verifDir, "evidence")
+	if src != "/repo" {
+		// self-test against a scratch copy of the repository (tools/mutate.py): not evidence about /repo
+		evDir = filepath.Join(verifDir, ".work", "selftest-evidence")
+	}
+	os.MkdirAll(evDir, 0o755)
 	js, _ := json.MarshalIndent(ev, "", " ")
-	if err := os.WriteFile(filepath.Join(verifDir, "evidence", prop+".json"), js, 0o644); err != nil {
+	if err := os.WriteFile(filepath.Join(evDir, prop+".json"), js, 0o644); err != nil {
 		harness = append(harness, "cannot write evidence: "+err.Error())
 	}
 
